@@ -276,6 +276,61 @@ example : (keplerTo 4 ⟨⟨1, 0.5, 1, 2, 3, 0.25⟩, ⟨58000, 370000000, 37000
   rw [(kepler_M_advance_dates _ _ _ (by norm_num) (by norm_num) (by decide) (by decide)).1]
   norm_num [sqrt_four, Date.Date.inst, Date.D]
 
+/-- **The offsets of the two scales enter the span**: for an epoch built as `Date(datetime, scale=E)` and a target built as
+`Date(datetime, scale=T)` from the clock readings `usE`, `usT` (µs) — any two scales, any Earth-orientation environment, the
+offsets `TAI − E`, `TAI − T` (ticks) being whole microseconds — the mean anomaly advances by
+`n · ((usT + (TAI − T)) − (usE + (TAI − E)))`: the difference of the clock READINGS alone (what the own-scale fields
+`date.d`, `date.s` give) is off by the difference of the two offsets, e.g. 32.184 s for UTC → TT without Earth-orientation data. -/
+theorem kepler_M_advance_readings {env : Date.Env} (mu : ℝ) (x : Elts) (scE scT : Nat) (usE usT : ℤ) (e t : Date.Date)
+    (hE : Date.ofDatetime Date.cfg env scE usE = .ok e) (hT : Date.ofDatetime Date.cfg env scT usT = .ok t)
+    (hoE : e.off % 10 = 0) (hoT : t.off % 10 = 0) (hmu : 0 < mu) (ha : x.a ≠ 0) :
+    e.scale = scE ∧ t.scale = scT ∧
+    (keplerTo mu ⟨x, e⟩ t).elts.M
+      = x.M + Real.sqrt (mu / |x.a| ^ 3) * ((((10 * usT + t.off) - (10 * usE + e.off) : ℤ) : ℝ) / 10000000) := by
+  obtain ⟨hwE, hsE, hiE⟩ := Date.ofDatetime_spec hE
+  obtain ⟨hwT, hsT, hiT⟩ := Date.ofDatetime_spec hT
+  have h10 : ∀ (y : Date.Date), Date.WF Date.cfg env y → ∀ us : ℤ, y.inst = 10 * us + y.off → y.off % 10 = 0 → y.s % 10 = 0 := by
+    intro y hy us hi ho
+    have := hy.s_nonneg; have := hy.s_lt
+    simp only [Date.Date.inst, Date.D] at *
+    omega
+  refine ⟨hsE, hsT, ?_⟩
+  rw [(kepler_M_advance_dates mu ⟨x, e⟩ t hmu ha (h10 t hwT usT hiT hoT) (h10 e hwE usE hiE hoE)).1]
+  simp only [hiT, hiE]
+
+/-- the offset to TAI a TT date carries is −32.184 s, a UTC date carries `TAI − UTC` of its Earth-orientation record
+(`C03.offset_TT_TAI`, `C03.offset_TAI_UTC`, `C03.offset_antisymm`, on the scale graph regenerated from the source) -/
+theorem off_TT_UTC {env : Date.Env} {x : Date.Date} (hx : Date.WF Date.cfg env x) :
+    (x.scale = C03.ix "TT" → x.off = -321840000) ∧ (x.scale = C03.ix "UTC" → x.off = x.eop.taiUtc) := by
+  obtain ⟨num, h⟩ := hx.off_eq
+  have href : Date.cfg.ref = C03.ix "TAI" := by decide
+  rw [href] at h
+  constructor
+  · intro hs
+    rw [hs] at h
+    exact C03.offset_antisymm env num x.eop (C03.ix "TAI") (by decide) (C03.ix "TT") (by decide) _ _
+      (C03.offset_TT_TAI env num x.eop) h
+  · intro hs
+    rw [hs] at h
+    have := C03.offset_TAI_UTC env num x.eop
+    rw [this] at h
+    exact (Except.ok.inj h).symm
+
+/-- **Epoch in UTC, target in TT** (the pair of the demonstration of seeded change m4): with clock readings `usE` (UTC) and
+`usT` (TT), the mean anomaly advances by `n · (usT − usE − 32.184 s − (TAI − UTC))` — not by `n · (usT − usE)`. -/
+theorem kepler_M_advance_UTC_to_TT {env : Date.Env} (mu : ℝ) (x : Elts) (usE usT : ℤ) (e t : Date.Date)
+    (hE : Date.ofDatetime Date.cfg env (C03.ix "UTC") usE = .ok e) (hT : Date.ofDatetime Date.cfg env (C03.ix "TT") usT = .ok t)
+    (hleap : e.eop.taiUtc % 10 = 0) (hmu : 0 < mu) (ha : x.a ≠ 0) :
+    (keplerTo mu ⟨x, e⟩ t).elts.M
+      = x.M + Real.sqrt (mu / |x.a| ^ 3) * ((((usT - usE) * 10 - 321840000 - e.eop.taiUtc : ℤ) : ℝ) / 10000000) := by
+  obtain ⟨hwE, hsE, _⟩ := Date.ofDatetime_spec hE
+  obtain ⟨hwT, hsT, _⟩ := Date.ofDatetime_spec hT
+  have hoE := (off_TT_UTC hwE).2 hsE
+  have hoT := (off_TT_UTC hwT).1 hsT
+  rw [(kepler_M_advance_readings mu x _ _ usE usT e t hE hT (by rw [hoE]; exact hleap) (by rw [hoT]; decide) hmu ha).2.2, hoE, hoT]
+  have hint : (10 * usT + -321840000 - (10 * usE + e.eop.taiUtc) : ℤ) = (usT - usE) * 10 - 321840000 - e.eop.taiUtc := by omega
+  rw [hint]
+
 /-- a date is determined, as far as `−`, comparisons and the propagators go, by its instant: two dates at the same instant
 (however labelled) have the same reference-scale datetime -/
 theorem datetimeRef_of_inst (x y : Date.Date) (hx : 0 ≤ x.s ∧ x.s < Date.D) (hy : 0 ≤ y.s ∧ y.s < Date.D)
